@@ -77,9 +77,17 @@ def get_shape(spec):
     if k in ("box", "cyl", "cone", "sph"):
         cls = {"box": sh.BoxShape, "cyl": sh.CylinderShape, "cone": sh.ConeShape,
                "sph": sh.SpheroidShape}[k]
-        shape = cls()
+        irot = spec.get("irot")
+        shape = cls(initial_rotation=tuple(float(a) for a in irot)) if irot else cls()
         V = np.array(shape.mesh.vertices, dtype=float)
         F = np.array(shape.mesh.faces)
+        if irot:
+            # documented meaning of initial_rotation: the primitive is rotated by (yaw, pitch,
+            # roll) and the result rescaled to unit extents about its bounding-box centre
+            V0 = np.array(cls().mesh.vertices, dtype=float) @ geo.rot(*irot).T
+            V0 = (V0 - (V0.min(axis=0) + V0.max(axis=0)) / 2) / (V0.max(axis=0) - V0.min(axis=0))
+            if V0.shape != V.shape or np.abs(V0 - V).max() > 1e-9:
+                raise core.HarnessError("initial_rotation: unit mesh is not the rotated, rescaled primitive")
         solid = geo.Solid.convex_from_mesh(V, F)
         if solid.parts[0].convexity_defect() > 1e-9:
             raise core.HarnessError(f"unit mesh of {k} is not convex")
@@ -113,7 +121,7 @@ def get_shape(spec):
 
 def shape_class(spec):
     if spec["k"] != "poly":
-        return spec["k"]
+        return ("rot" + spec["k"]) if spec.get("irot") else spec["k"]
     occ = np.array(spec["occ"], dtype=bool)
     if occ.sum() == 1:
         return "poly-box"
@@ -229,6 +237,35 @@ class Probe:
         for cls, name, orig in self._saved:
             setattr(cls, name, orig)
         return False
+
+
+def fcl_distance_model(specs_pos, motion):
+    """What python-fcl itself answers for the two solids, built here from the unit meshes and
+    the properties (scaled geometry + rigid transform, the representation Scenic uses).  Only
+    used to attribute an over-estimated minimum distance to the third-party library: the
+    failure is FCL's iff this independent call reproduces the reported value."""
+    import fcl
+
+    objs = []
+    for spec, pos in specs_pos:
+        shape, unit, _ = get_shape(spec["shape"])
+        V = unit.V * np.asarray(spec["dims"], float)
+        F = unit.F
+        if shape.isConvex:
+            faces = np.concatenate((3 * np.ones((len(F), 1), dtype=np.int64), F), axis=1)
+            geom = fcl.Convex(V, len(F), faces.flatten())
+        else:
+            geom = fcl.BVHModel()
+            geom.beginModel(num_tris_=len(F), num_vertices_=len(V))
+            geom.addSubModel(V, F)
+            geom.endModel()
+        R = geo.pose_matrix(spec["ypr"], spec.get("parent"))
+        p = np.asarray(pos, float)
+        if motion:
+            G = geo.rot(*motion["ypr"])
+            R, p = G @ R, G @ p + np.asarray(motion["t"], float)
+        objs.append(fcl.CollisionObject(geom, fcl.Transform(R, p)))
+    return float(fcl.distance(objs[0], objs[1]))
 
 
 def intersect_exit(probe, oA, oB, result, cdist, rsum):
@@ -418,10 +455,22 @@ def build_region(spec):
 # strategies
 # --------------------------------------------------------------------------------------------
 
+_CENT = st.integers(0, 99)
+
+
 def U(lo, hi):
-    """Roughly uniform reals in [lo, hi] (Hypothesis' own float strategy concentrates on 0,
-    tiny and boundary values, which starves the generic configurations)."""
-    return st.integers(0, 1_000_000).map(lambda k: lo + (hi - lo) * k / 1e6)
+    """Uniform reals in [lo, hi) with 1e-6 resolution, composed of three 0..99 draws.
+    (Measured: Hypothesis' floats() put a third of the mass on 0 / tiny values, and bounded
+    integers() wider than ~256 are size-biased -- 80 % of integers(0, 10**6) fall in the lowest
+    decile -- either of which starves the generic configurations.)"""
+    return st.tuples(_CENT, _CENT, _CENT).map(
+        lambda t: lo + (hi - lo) * (t[0] * 10000 + t[1] * 100 + t[2]) / 1e6)
+
+
+def W(options):
+    """Choice from a list weighted by repetition (at most 100 entries)."""
+    options = list(options)
+    return st.integers(0, len(options) - 1).map(lambda k: options[k])
 
 
 ANG = U(-math.pi, math.pi)
@@ -489,16 +538,22 @@ def polycubes(draw, want=None):
 
 @st.composite
 def shapes(draw):
-    k = draw(st.sampled_from(["box", "box", "box", "cyl", "cone", "sph", "poly", "poly", "poly",
+    k = draw(W(["box", "box", "box", "cyl", "cone", "sph", "poly", "poly", "poly",
                               "poly", "poly"]))
     if k == "poly":
         return draw(polycubes())
+    if k != "sph" and draw(st.integers(0, 5)) == 0:
+        # a primitive shape created with an initial_rotation (rotated, then rescaled to its
+        # new bounding box: a rotated BoxShape is no longer a box in the object's frame)
+        rot = draw(W([[math.pi / 4, 0.0, 0.0], [draw(ANG), 0.0, 0.0], [draw(ANG), draw(PITCH), draw(ANG)],
+                      [math.pi / 2, 0.0, 0.0]]))
+        return {"k": k, "irot": [round(a, 6) for a in rot]}
     return {"k": k}
 
 
 @st.composite
 def poses(draw):
-    kind = draw(st.sampled_from(["generic", "generic", "generic", "planar", "planar", "aligned",
+    kind = draw(W(["generic", "generic", "generic", "planar", "planar", "aligned",
                                  "quarter"]))
     if kind == "generic":
         return [draw(ANG), draw(PITCH), draw(ANG)]
@@ -519,12 +574,15 @@ def objects(draw):
 
 
 POS = st.lists(U(-40, 40), min_size=3, max_size=3)
-DIRS = st.tuples(ANG, U(-1.0, 1.0)).map(list)   # azimuth, sin(elevation)
+# azimuth, sin(elevation); one direction in six lies in a coordinate plane, which for
+# axis-aligned bodies gives the symmetric configurations (parallel closest edges)
+DIRS = st.tuples(st.integers(0, 5).flatmap(
+    lambda k: W([0.0, math.pi / 2, math.pi, -math.pi / 2]) if k == 0 else ANG), U(-1.0, 1.0)).map(list)
 
 
 @st.composite
 def placements(draw):
-    kind = draw(st.sampled_from(["contact"] * 9 + ["inside"] * 4 + ["notch"] * 3 + ["free"] * 2
+    kind = draw(W(["contact"] * 9 + ["inside"] * 4 + ["notch"] * 3 + ["free"] * 2
                                 + ["far"] * 2))
     pl = {"kind": kind, "u": draw(DIRS), "sel": draw(st.integers(0, 63))}
     if kind == "contact":
@@ -563,6 +621,8 @@ def pair_cases(draw):
             o["shape"] = {"k": "box"}
             o["ypr"] = [o["ypr"][0], 0.0, 0.0]
             o.pop("parent", None)
+        if draw(st.integers(0, 3)) == 0:
+            A["shape"] = {"k": "box", "irot": [round(draw(W([math.pi / 4, draw(ANG)])), 6), 0.0, 0.0]}
     return {"mode": "pair", "A": A, "posA": draw(POS), "B": B, "place": pl,
             "twin": draw(st.integers(0, 2)) == 0, "motion": draw(motions())}
 
@@ -586,7 +646,7 @@ def grid2d(draw):
 
 @st.composite
 def leaf_regions(draw, centre=None, scale=1.0, kinds=None):
-    k = draw(st.sampled_from(kinds or ["box", "box", "sph", "meshc", "meshp", "meshp", "meshp",
+    k = draw(W(kinds or ["box", "box", "sph", "meshc", "meshp", "meshp", "meshp",
                                        "foot", "foot", "polygon"]))
     pos = centre if centre is not None else draw(POS)
     big = U(2.0 * scale, 12.0 * scale)
@@ -631,7 +691,7 @@ def contain_cases(draw):
     B = draw(objects())
     pl = {"u": draw(DIRS), "sel": draw(st.integers(0, 63)),
           "rel": [draw(U(0.05, 0.6)) for _ in range(3)],
-          "kind": draw(st.sampled_from(["wall"] * 5 + ["deep"] * 2 + ["free"] * 2 + ["far"]))}
+          "kind": draw(W(["wall"] * 5 + ["deep"] * 2 + ["free"] * 2 + ["bridge"] * 2 + ["far"]))}
     mag = draw(st.one_of(SMALL_DELTA, SMALL_DELTA, LARGE_DELTA))
     pl["delta"] = mag * draw(st.sampled_from([-1, -1, 1]))
     pl["frac"] = draw(U(0.0, 1.0))
@@ -640,7 +700,7 @@ def contain_cases(draw):
 
 
 def cases():
-    return st.one_of(pair_cases(), pair_cases(), pair_cases(), contain_cases(), contain_cases())
+    return st.integers(0, 9).flatmap(lambda k: pair_cases() if k < 6 else contain_cases())
 
 
 # --------------------------------------------------------------------------------------------
@@ -736,7 +796,7 @@ def judge_pair(case, out):
     cA, cB = shape_class(A["shape"]), shape_class(B["shape"])
     out.cls("pair", "place:" + kind, "shapes:" + "x".join(sorted([cA, cB])))
     # signature cell: convexity classes only (one root cause must not fan out over shapes)
-    coarse = {"poly-1body": "nonconvex", "poly-multi": "multibody"}
+    coarse = {"poly-1body": "nonconvex", "poly-multi": "multibody", "rotbox": "rotated-boxshape"}
     cell = "x".join(sorted([coarse.get(cA, "convex"), coarse.get(cB, "convex")]))
     cdist = float(np.linalg.norm(np.asarray(posA) - np.asarray(posB)))
     rsum = SA.circumradius_about(posA) + SB.circumradius_about(posB)
@@ -825,6 +885,16 @@ def judge_pair(case, out):
                     sym = "too-large" if d > gap else "too-small"
                     if d <= 0:
                         sym = "nonpositive-but-disjoint"
+                    if sym == "too-large":
+                        # known third-party finding: python-fcl over-estimates.  Attributed to
+                        # it only if FCL alone, called from here, returns the same value.
+                        pair = [(A, posA), (B, posB)] if name == "AB" else [(B, posB), (A, posA)]
+                        try:
+                            model = fcl_distance_model(pair, motion)
+                        except Exception:
+                            model = None
+                        if model is None or abs(model - d) > 1e-7 * max(1.0, abs(d)):
+                            sym = "too-large-beyond-fcl"
                     fail(f"mindist:{cell}", sym, suffix, order=name, expected=gap, observed=d,
                              size=size, posB=posB, dimsB=B["dims"])
             elif verdict > 0:
@@ -867,6 +937,25 @@ def judge_contain(case, out):
     centre, ext = anchors[pl["sel"] % len(anchors)]
     B["dims"] = [max(0.05, float(r * e)) for r, e in zip(pl["rel"], ext)]
     u = unit_dir(pl["u"])
+    if pl["kind"] == "bridge":
+        # a long thin upright box reaching from one occupied cell to another one (possibly
+        # across a notch, a hole or the gap between two bodies)
+        i1 = pl["sel"] % len(anchors)
+        i2 = (pl["sel"] // 8) % len(anchors)
+        i2 = i2 if i2 != i1 else (i1 + 1) % len(anchors)
+        (c1, e1), (c2, e2) = anchors[i1], anchors[i2]
+        dxy = (np.asarray(c2) - np.asarray(c1))[:2]
+        if i1 == i2 or np.linalg.norm(dxy) < 1e-6:
+            pl = dict(pl, kind="free")
+        else:
+            L = float(np.linalg.norm(dxy))
+            thin = min(float(e1[0]), float(e1[1]), float(e2[0]), float(e2[1]))
+            B["shape"] = {"k": "box"}
+            B["ypr"] = [math.atan2(dxy[1], dxy[0]), 0.0, 0.0]
+            B.pop("parent", None)
+            B["dims"] = [L * (0.5 + 0.7 * pl["frac"]), max(0.05, pl["rel"][1] * thin * 0.6),
+                         max(0.05, pl["rel"][2] * min(float(e1[2]), float(e2[2])))]
+            centre = (np.asarray(c1) + np.asarray(c2)) / 2
     if pl["kind"] == "deep":
         B["dims"] = [max(0.05, d * 0.4) for d in B["dims"]]
     S0 = world_solid(B, centre)
@@ -880,7 +969,7 @@ def judge_contain(case, out):
     size = S0.size
     band = max(BAND_REL * size, BAND_ABS)
     smax = oreg.extent() * 1.5 + size
-    if pl["kind"] == "deep":
+    if pl["kind"] in ("deep", "bridge"):
         s = 0.0
     elif pl["kind"] == "far":
         s = smax * (1 + pl["frac"])
@@ -929,7 +1018,8 @@ def judge_contain(case, out):
         if verdict != 0 and r != (verdict > 0):
             sym = "says-outside-but-contained" if verdict > 0 else "says-contained-but-sticks-out"
             if not (suffix and base_failed):
-                out.fail(f"contains:{rsig}:{'convex' if S.convex else 'nonconvex'}-object{suffix}|{sym}@{ex}",
+                ocls = "rotated-boxshape" if cB == "rotbox" else ("convex" if S.convex else "nonconvex")
+                out.fail(f"contains:{rsig}:{ocls}-object{suffix}|{sym}@{ex}",
                          expected=truth, pos=pos, dims=B["dims"], size=size, region=rcls)
             base_failed = True
 
